@@ -325,6 +325,10 @@ func genC14Plan(r *zsim.Rng) *sysPlan {
 		ps.Exit = []int{0, 0, 0, 1, 127}[r.Intn(5)]
 		ps.StartErr = r.Chance(1, 12)
 		ps.Fork = r.Chance(1, 3)
+		if r.Chance(1, 5) {
+			// more output than a pipe holds (seq 100000): the command cannot finish unless somebody reads
+			ps.Bulk = r.Range(70000, 400000)
+		}
 		p.Procs = append(p.Procs, ps)
 	}
 	for i := r.Range(1, 3); i > 0; i-- {
@@ -553,7 +557,8 @@ func genC14Plan(r *zsim.Rng) *sysPlan {
 	if r.Chance(1, 15) {
 		// Targeted mode: a command started in the foreground runs for most of a minute; SIGTERM / SIGHUP
 		// arrives in the middle of it
-		p.Procs = []procSpec{{FinalMs: r.Range(30000, 50000), Text: "out\n"}}
+		// half of the time the shell runs the command as a child of its own (a pipeline, `sleep 40; echo x`)
+		p.Procs = []procSpec{{FinalMs: r.Range(30000, 50000), Text: "out\n", Fork: r.Bool()}}
 		p.Events = append(p.Events, sysEvent{Kind: "settle"}, sysEvent{Kind: "keys", Keys: pick(r, "alt-a", "alt-b", "alt-b")})
 		end = sysEvent{Kind: "sig", Sig: pick(r, "TERM", "HUP"), DelayMs: r.Range(300, 3000)}
 	}
@@ -594,11 +599,32 @@ func runC14(c *runCtx) {
 	}
 	c.plan = plan
 	r := newSysRun(c, plan)
+	mouseAtFirstRest := -1
 	r.onSettle = func(r *sysRun, busy bool, final bool) {
 		if busy {
 			c.count("settle.busy", 1)
-		} else {
-			c.count("settle.checked", 1)
+			return
+		}
+		c.count("settle.checked", 1)
+		// The terminal modes fzf works with are those it asked for at start-up: at rest, with the interface
+		// up and no command in the foreground, bracketed paste is on (fzf turns it on unconditionally) and
+		// mouse reporting is what it was at the first rest - or the terminal no longer sends what the user
+		// does. Coming back from ctrl-z fzf gives up the mouse on purpose (not full screen).
+		if r.t == nil || r.done || r.became != "" || !r.tty.Raw || r.t.executing.Get() {
+			return
+		}
+		paste, mouseOn := r.tty.Modes()
+		mouse := 0
+		if mouseOn {
+			mouse = 1
+		}
+		if !paste {
+			c.violate("sys.modes_lost", "at rest, interface up, no command running: bracketed paste mode is off (fzf turned it on at start-up); SIGTSTP seen: %d", r.os.Stops)
+		}
+		if mouseAtFirstRest < 0 {
+			mouseAtFirstRest = mouse
+		} else if mouse != mouseAtFirstRest && r.os.Stops == 0 {
+			c.violate("sys.modes_lost", "at rest, interface up, no command running: mouse reporting is %d, it was %d at the first rest (no ctrl-z in between): the terminal no longer reports clicks and wheel", mouse, mouseAtFirstRest)
 		}
 	}
 	defer r.cleanup()
